@@ -4,7 +4,9 @@ from . import c11
 RULE = ("Model: MC_Tendril checks the heap invariants in every state of every operation history (refcount = number of views, "
         "an owned buffer has one owner, every view within the initialised part of a live buffer within its capacity, freed only "
         "after the last user, nothing live when all tendrils are gone); TendrilConc explores every interleaving of clone / "
-        "drop steps of up to 4-5 views over 3 threads with fetch_add / fetch_sub / destroy as separate atomic steps.  Real "
+        "drop steps of up to 4-5 views over 3 threads with fetch_add / fetch_sub / destroy as separate atomic steps, and for an "
+        "unbounded number of views an inductive invariant implying the same safety properties is discharged by Apalache "
+        "(spec/apalache/TendrilConcInd.tla).  Real "
         "code: every replayed and random history, and multi-threaded runs distributing clones, subtendrils and SendTendrils "
         "of one atomic tendril over 2-4 threads, run under the harness's allocation observer (live table, guard zones, "
         "quarantine); TLC judges the recorded end-of-case report: every block freed exactly once, no damaged guard zone, "
